@@ -23,6 +23,7 @@ struct Ctx
     std::string rundir;
     QtLogger::Logger *logger = nullptr; // set for targets logger / singleton
     Oth *oth = nullptr; // always set while the handler is alive
+    Oth *oth_b = nullptr; // C02 slice "two pipelines": the second pipeline (odd producers)
     bool singleton = false;
     QCoreApplication *app = nullptr;
     std::map<int, QSharedPointer<QtLogger::SeqNumberAttr>> seqs;
